@@ -200,11 +200,19 @@ def main():
             # The solver neither proved nor refuted these obligations, so there is no counter-model.  The real
             # function (for a closure: the function that defines it) is searched under the same contract at
             # run time; only an input that breaks it on the real code turns `undecided` into a violation.
-            o = unknown[0]
+            # prefer an obligation for which the quantifier-free facts alone have a model: that candidate entry
+            # state is replayed first (it decides nothing unless the real code fails on it)
+            o = next((u for u in unknown if u.get('model')), unknown[0])
             sid = stable_ob_id(o)
             kf = [f for f in known['findings'] if f.get('status') == 'known' and f.get('property') == pid
                   and f.get('layer') == 'deductive' and f.get('obligation') == sid]
             rp = None if kf else replay_obligation(o, budget, search=True)
+            if rp and rp.get('confirmed') and o['kind'] not in ('raises', 'aorte') and \
+                    'raises' in str((rp.get('outcome') or {}).get('kind', '')):
+                # The searched / candidate input made the real function raise, but the undecided obligation is not
+                # about exceptions: inputs outside the (unstated) typing discipline of the callers do that (a bare
+                # `Token` in a name list).  Not the failure this obligation describes: it decides nothing.
+                rp = None
             if rp and rp.get('confirmed'):
                 os.makedirs(replay_dir, exist_ok=True)
                 path = os.path.join(replay_dir, 'ob-%s.json' % hashlib.sha1(sid.encode()).hexdigest()[:10])
